@@ -178,6 +178,19 @@ macro_rules! shared_impl {
             let internal = acquire_internal(&self.internal);
             (internal.wait_list.len(), internal.recv_blocking)
         }
+        /// (verification hook) a closure that takes and releases the channel
+        /// lock. It keeps the channel's memory alive but is not a handle: it
+        /// changes no count. A destructor that calls it gets stuck exactly
+        /// when the channel runs that destructor inside a critical section.
+        #[cfg(feature = "verif")]
+        #[doc(hidden)]
+        pub fn verif_lock_probe(&self) -> std::boxed::Box<dyn Fn() + Send + Sync>
+        where
+            T: Send + 'static,
+        {
+            let internal = self.internal.clone();
+            std::boxed::Box::new(move || drop(acquire_internal(&internal)))
+        }
         /// Returns whether the channel is bounded or not.
         ///
         /// # Examples
